@@ -140,6 +140,14 @@ func verifStubFileClose(f *os.File) error {
 	return nil
 }
 
+//verif:stub os.ReadFile
+func verifStubReadFile(name string) ([]byte, error) {
+	if nondet_bool("os.ReadFile-fails") {
+		return nil, verifErrNotExist
+	}
+	return []byte("<file>"), nil
+}
+
 //verif:stub os.WriteFile
 func verifStubWriteFile(name string, data []byte, perm os.FileMode) error {
 	if err := verifFSErr("writefile"); err != nil {
